@@ -31,7 +31,6 @@ pub fn consts() -> Value {
         "LCD_DISPLAY_COLS": sc62015_core::lcd::LCD_DISPLAY_COLS,
     })
 }
-pub fn cmd_mem(_req: &Value) -> Value { json!({"err": "not implemented"}) }
 /// timer: script over one TimerContext + MemoryImage.
 /// ops: {"new":[enabled,mti,sti]} {"tick":cycle} {"reset":cycle} {"snap":cycle} {"set_isr":v}
 pub fn cmd_timer(req: &Value) -> Value {
@@ -75,5 +74,194 @@ pub fn cmd_timer(req: &Value) -> Value {
     }
     json!({"out": out})
 }
-pub fn cmd_kbd(_req: &Value) -> Value { json!({"err": "not implemented"}) }
-pub fn cmd_lcd(_req: &Value) -> Value { json!({"err": "not implemented"}) }
+
+pub fn hex(b: &[u8]) -> String {
+    b.iter().map(|x| format!("{x:02x}")).collect()
+}
+
+pub fn unhex(s: &str) -> Vec<u8> {
+    (0..s.len() / 2).map(|i| u8::from_str_radix(&s[2 * i..2 * i + 2], 16).unwrap_or(0)).collect()
+}
+
+pub fn u(v: &Value, i: usize) -> u64 {
+    v.as_array().and_then(|a| a.get(i)).and_then(|x| x.as_u64()).unwrap_or(0)
+}
+
+/// Apply a memory configuration object to a MemoryImage.
+pub fn configure_memory(mem: &mut sc62015_core::memory::MemoryImage, cfg: &Value) {
+    if let Some(b) = cfg.get("mirror").and_then(|v| v.as_bool()) {
+        mem.set_internal_ram_mirror(b);
+    }
+    if let Some(Value::Array(r)) = cfg.get("readonly") {
+        mem.set_readonly_ranges(r.iter().map(|p| (u(p, 0) as u32, u(p, 1) as u32)).collect());
+    }
+    if cfg.get("pce500_map").and_then(|v| v.as_bool()).unwrap_or(false) {
+        sc62015_core::pce500::configure_pce500_memory_map(mem);
+    }
+    if let Some(n) = cfg.get("card").and_then(|v| v.as_u64()) {
+        if n == 0 {
+            mem.set_memory_card_slot_present(false);
+        } else {
+            let data: Vec<u8> = (0..n as usize).map(|i| (i as u8) ^ 0x5A).collect();
+            let _ = mem.load_memory_card(&data);
+        }
+    }
+    if let Some(Value::Array(r)) = cfg.get("ram_overlays") {
+        for (i, p) in r.iter().enumerate() {
+            mem.add_ram_overlay(u(p, 0) as u32, u(p, 1) as usize, &format!("ramov{i}"));
+        }
+    }
+    if let Some(Value::Array(r)) = cfg.get("rom_overlays") {
+        for (i, p) in r.iter().enumerate() {
+            let data: Vec<u8> = (0..u(p, 1) as usize).map(|k| (k as u8).wrapping_mul(7) ^ 0xC3).collect();
+            mem.add_rom_overlay(u(p, 0) as u32, &data, &format!("romov{i}"));
+        }
+    }
+    if let Some(Value::Array(r)) = cfg.get("ext") {
+        for p in r {
+            mem.write_external_byte(u(p, 0) as u32, u(p, 1) as u8);
+        }
+    }
+}
+
+/// mem: script on a bare MemoryImage. ops: {"st":[addr,bits,val]} {"ld":[addr,bits]} {"rb":addr}
+pub fn cmd_mem(req: &Value) -> Value {
+    use sc62015_core::memory::MemoryImage;
+    let mut mem = MemoryImage::new();
+    if let Some(cfg) = req.get("cfg") {
+        configure_memory(&mut mem, cfg);
+    }
+    let mut out: Vec<Value> = Vec::new();
+    if let Some(Value::Array(ops)) = req.get("script") {
+        for op in ops {
+            if let Some(a) = op.get("st") {
+                let r = mem.store(u(a, 0) as u32, u(a, 1) as u8, u(a, 2) as u32);
+                out.push(json!({"ok": r.is_some()}));
+            } else if let Some(a) = op.get("ld") {
+                out.push(json!({"v": mem.load(u(a, 0) as u32, u(a, 1) as u8)}));
+            } else if let Some(a) = op.get("rb").and_then(|v| v.as_u64()) {
+                out.push(json!({"v": mem.read_byte(a as u32)}));
+            } else if let Some(Value::Array(addrs)) = op.get("probe") {
+                let vals: Vec<Value> = addrs.iter().map(|a| json!(mem.load(a.as_u64().unwrap_or(0) as u32, 8))).collect();
+                out.push(json!({"probe": vals}));
+            }
+        }
+    }
+    json!({"out": out})
+}
+
+fn kbd_obs(kb: &sc62015_core::keyboard::KeyboardMatrix, mem: &sc62015_core::memory::MemoryImage) -> Value {
+    let snap = kb.snapshot_state();
+    json!({
+        "kol": snap.kol, "koh": snap.koh, "kil_latch": snap.kil_latch,
+        "kil": kb.compute_kil(false), "kil_pending": kb.compute_kil(true),
+        "fifo": kb.fifo_snapshot(), "fifo_len": kb.fifo_len(),
+        "isr": mem.read_internal_byte(0xFC).unwrap_or(0),
+        "mem_kil": mem.read_internal_byte(0xF2).unwrap_or(0),
+        "active_columns": snap.active_columns,
+        "key_states": serde_json::to_value(&snap.key_states).unwrap_or(Value::Null),
+        "irq_count": snap.irq_count,
+    })
+}
+
+/// kbd: script on KeyboardMatrix + MemoryImage.
+pub fn cmd_kbd(req: &Value) -> Value {
+    use sc62015_core::keyboard::KeyboardMatrix;
+    use sc62015_core::memory::MemoryImage;
+    let mut mem = MemoryImage::new();
+    let mut kb = KeyboardMatrix::new();
+    if let Some(cfg) = req.get("cfg") {
+        if let Some(p) = cfg.get("press").and_then(|v| v.as_u64()) {
+            kb.set_press_threshold(p as u8);
+        }
+        if let Some(b) = cfg.get("active_high").and_then(|v| v.as_bool()) {
+            kb.set_columns_active_high(b);
+        }
+        if let Some(b) = cfg.get("repeat").and_then(|v| v.as_bool()) {
+            kb.set_repeat_enabled(b);
+        }
+    }
+    let mut out: Vec<Value> = Vec::new();
+    if let Some(Value::Array(ops)) = req.get("script") {
+        for op in ops {
+            if let Some(c) = op.get("press").and_then(|v| v.as_u64()) {
+                kb.press_matrix_code(c as u8, &mut mem);
+                out.push(json!({}));
+            } else if let Some(c) = op.get("release").and_then(|v| v.as_u64()) {
+                kb.release_matrix_code(c as u8, &mut mem);
+                out.push(json!({}));
+            } else if let Some(a) = op.get("w") {
+                let h = kb.handle_write(u(a, 0) as u32, u(a, 1) as u8, &mut mem);
+                out.push(json!({"handled": h}));
+            } else if let Some(o) = op.get("r").and_then(|v| v.as_u64()) {
+                out.push(json!({"v": kb.handle_read(o as u32, &mut mem)}));
+            } else if let Some(c) = op.get("tick") {
+                let before = kb.fifo_snapshot();
+                let n = kb.scan_tick(&mut mem, c.as_bool().unwrap_or(true));
+                out.push(json!({"events": n, "fifo_before": before, "fifo": kb.fifo_snapshot()}));
+            } else if let Some(a) = op.get("inject") {
+                let n = kb.inject_matrix_event(u(a, 0) as u8, u(a, 1) != 0, &mut mem, u(a, 2) != 0);
+                out.push(json!({"events": n, "fifo": kb.fifo_snapshot()}));
+            } else if let Some(b) = op.get("fifo2mem").and_then(|v| v.as_bool()) {
+                kb.write_fifo_to_memory(&mut mem, b);
+                out.push(json!({"isr": mem.read_internal_byte(0xFC).unwrap_or(0)}));
+            } else if op.get("consume").is_some() {
+                kb.consume_pending_events();
+                out.push(json!({}));
+            } else if op.get("snap").is_some() {
+                let s = kb.snapshot_state();
+                let mut fresh = KeyboardMatrix::new();
+                fresh.load_snapshot_state(&s);
+                kb = fresh;
+                out.push(json!({}));
+            } else if let Some(v) = op.get("set_isr").and_then(|v| v.as_u64()) {
+                mem.write_internal_byte(0xFC, v as u8);
+                out.push(json!({}));
+            } else if op.get("obs").is_some() {
+                out.push(kbd_obs(&kb, &mem));
+            }
+        }
+    }
+    json!({"out": out})
+}
+
+pub fn lcd_obs(lcd: &sc62015_core::lcd::LcdController, disp: bool) -> Value {
+    let (meta, vram) = lcd.export_snapshot();
+    let mut o = json!({"meta": meta, "vram": hex(&vram)});
+    if disp {
+        let buf = lcd.display_buffer();
+        let rows: Vec<String> = buf.iter().map(|r| r.iter().map(|p| if *p != 0 { '1' } else { '0' }).collect()).collect();
+        o["display"] = json!(rows);
+    }
+    o
+}
+
+/// lcd: script on LcdController. ops: {"w":[addr,val]} {"r":addr} {"obs":disp?} {"snap":1}
+pub fn cmd_lcd(req: &Value) -> Value {
+    use sc62015_core::lcd::LcdController;
+    let mut lcd = LcdController::new();
+    let mut out: Vec<Value> = Vec::new();
+    if let Some(Value::Array(ops)) = req.get("script") {
+        for op in ops {
+            if let Some(a) = op.get("w") {
+                lcd.write(u(a, 0) as u32, u(a, 1) as u8);
+                out.push(json!({"handles": lcd.handles(u(a, 0) as u32)}));
+            } else if let Some(a) = op.get("r").and_then(|v| v.as_u64()) {
+                out.push(json!({"v": lcd.read(a as u32), "handles": lcd.handles(a as u32)}));
+            } else if let Some(d) = op.get("obs") {
+                out.push(lcd_obs(&lcd, d.as_bool().unwrap_or(false)));
+            } else if op.get("snap").is_some() {
+                let (meta, vram) = lcd.export_snapshot();
+                let mut fresh = LcdController::new();
+                let r = fresh.load_snapshot(&meta, &vram);
+                lcd = fresh;
+                out.push(json!({"err": r.err()}));
+            } else if let Some(h) = op.get("setvram").and_then(|v| v.as_str()) {
+                let (meta, _) = lcd.export_snapshot();
+                let r = lcd.load_snapshot(&meta, &unhex(h));
+                out.push(json!({"err": r.err()}));
+            }
+        }
+    }
+    json!({"out": out})
+}
